@@ -1644,6 +1644,7 @@ impl<'comments> Formatter<'comments> {
             args.first(),
             Some(CallArg {
                 value: UntypedExpr::Var { name, .. },
+                label: None,
                 ..
             }) if name.starts_with(CAPTURE_VARIABLE)
         );
